@@ -1,6 +1,7 @@
 #!/bin/bash
 # tools/confirm_mutant.sh <worktree>: confirm a seeded change in its scratch worktree:
 # demo fails with the change, test suite passes with the change, demo passes without it.
+# (No `git stash`: the stash is shared by all worktrees of a repository.)
 wt=$1; out=$wt/demo/CONFIRM.txt
 cd $wt || exit 2
 {
@@ -10,8 +11,9 @@ bash demo/build_and_run.sh > demo/confirm_with.log 2>&1; echo "demo rc with chan
 echo "== with change: test suite"
 ctest --test-dir _build -j8 --timeout 900 2>&1 | tail -4
 echo "== without change"
-git stash -q -- src; cmake --build _build -j8 > /dev/null 2>&1; echo "build rc=$?"
+git diff -- src > demo/.confirm_change.diff
+git checkout -- src; cmake --build _build -j8 > /dev/null 2>&1; echo "build rc=$?"
 bash demo/build_and_run.sh > demo/confirm_without.log 2>&1; echo "demo rc without change=$?"
-git stash pop -q
+git apply demo/.confirm_change.diff; rm -f demo/.confirm_change.diff
 } > $out 2>&1
 cat $out
